@@ -17,6 +17,8 @@ func main() {
 	switch os.Args[1] {
 	case "c37":
 		c37Main()
+	case "c34":
+		c34Main()
 	default:
 		fmt.Fprintln(os.Stderr, "unknown subcommand")
 		os.Exit(2)
